@@ -265,7 +265,10 @@ def plan_C15(prop, tier, seed, t0):
                     "to_basic_gates, +, reverse, stats ran, and the rest of the public surface: + / += on operands with DIFFERENT qubit counts "
                     "(no composite: every overload must refuse), push_front / push_back, construction by name (add_gate family), "
                     "num_gates_of_type for every kind, CircuitStats::into_array / Display / make, in-place Circuit::adjoint and Gate::adjoint, "
-                    "impl RowOps for Circuit (add_row / swap_rows mirrored against bitgauss's BitMatrix through the circuit's X-basis F2 map); "
+                    "impl RowOps for Circuit (add_row / swap_rows mirrored against bitgauss's BitMatrix through the circuit's X-basis F2 map), "
+                    "and reverse / adjoint / + / == / stats / to_basic_gates on the same gate sequence BUILT in five ways (push_back only, push_front in "
+                    "reverse order, from the middle outwards, first gate last to the front, surplus gates popped off): the VecDeque is then wrapped "
+                    "around its buffer end, in-place operations run on the built circuit, never on a clone; "
                     "each result is decided by exact CircSem equalities in TLC")
 
 
